@@ -493,13 +493,14 @@ Next ==
    calls).  Every disjunct stays a named action with constant-range arguments so that TLC labels the steps; a
    name ending in Q is the action of the same name under a scheduling guard. *)
 Pending == ~IsClean(con)
-\* at most two objects changed before the transaction moves on
+\* at most two objects changed before the transaction moves on, one working copy per blob (an append may follow)
 FewEdits == Len(con.reg) + Cardinality(con.newb) < 2
+NoCopy(b) == b \notin DOMAIN con.work
 CreateBlobQ(b, c0) == FewEdits /\ CreateBlob(b, c0)
-RewriteQ(b, x) == FewEdits /\ Rewrite(b, x)
-AppendQ(b, x) == FewEdits /\ Append_(b, x)
-ConsumeFileQ(b, x) == FewEdits /\ ConsumeFile(b, x)
-ModifyPQ(v) == FewEdits /\ ModifyP(v)
+RewriteQ(b, x) == NoCopy(b) /\ (FewEdits \/ b \in Range(con.reg)) /\ Rewrite(b, x)
+AppendQ(b, x) == (FewEdits \/ b \in Range(con.reg) \/ b \in con.newb) /\ Append_(b, x)
+ConsumeFileQ(b, x) == NoCopy(b) /\ (FewEdits \/ b \in Range(con.reg)) /\ ConsumeFile(b, x)
+ModifyPQ(v) == con.pval = <<>> /\ FewEdits /\ ModifyP(v)
 EditQ ==
   \/ \E b \in Blobs, c0 \in Contents1 : CreateBlobQ(b, c0)
   \/ \E b \in Blobs, x \in Atoms : RewriteQ(b, x)
@@ -520,12 +521,20 @@ PackAny == \E T \in 1..MaxTid : Pack(T)
 PackQ(T) == res.call \in {"tpc_finish", "other", "pack"} /\ T \in TidsOf(hist) /\ T >= packed[1] /\ Pack(T)
 PackSome == \E T \in 1..MaxTid : PackQ(T)
 Sp == Savepoint \/ \E k \in 1..MaxSp : Rollback(k)
+\* simulation: a savepoint after a change, a rollback after a change or a savepoint, an abort of real work only
+SavepointQ == (con.reg # <<>> \/ con.newb # {}) /\ Savepoint
+RollbackQ(k) == res.call \in {"savepoint", "rewrite", "append", "consume", "create", "modify"} /\ Rollback(k)
+SpQ == SavepointQ \/ \E k \in 1..MaxSp : RollbackQ(k)
+AbortTxnQ == (con.spon \/ Len(con.reg) + Cardinality(con.newb) >= 2) /\ res.call # "rollback" /\ AbortTxn
+\* abort points: a behaviour aborts a commit at most every second time
+ConnAbortR == (txn.phase = "failed" \/ txn.tid % 2 = 0) /\ ConnAbort
+TpcAbortR == (txn.phase = "caborted" \/ txn.tid % 2 = 0) /\ TpcAbort
 
 NextCommit == EditQ \/ Tpc \/ ConnAbortQ \/ TpcAbortQ \/ OtherQ
-NextAbort  == EditQ \/ Tpc \/ AbortPath \/ AbortTxn \/ OtherQ
-NextUndo   == EditQ \/ Tpc \/ AbortPath \/ Other \/ UndoAll
-NextPack   == EditQ \/ Tpc \/ ConnAbortQ \/ TpcAbortQ \/ Other \/ UndoAll \/ PackSome
-NextSp     == EditQ \/ Tpc \/ AbortPath \/ AbortTxn \/ OtherQ \/ Sp
+NextAbort  == EditQ \/ Tpc \/ ConnAbortR \/ TpcAbortR \/ AbortTxnQ \/ OtherQ
+NextUndo   == EditQ \/ Tpc \/ ConnAbortR \/ TpcAbortR \/ OtherQ \/ UndoAll
+NextPack   == EditQ \/ Tpc \/ ConnAbortQ \/ TpcAbortQ \/ OtherQ \/ UndoAll \/ PackSome
+NextSp     == EditQ \/ Tpc \/ ConnAbortR \/ TpcAbortR \/ AbortTxnQ \/ OtherQ \/ SpQ
 
 (* ------------------------------ properties ------------------------------ *)
 Contents == UNION {[1..n -> Atoms] : n \in 0..MaxLen}
